@@ -43,6 +43,7 @@ class GeminiClientProtocol(asyncio.Protocol):
         url: str,
         response_future: asyncio.Future,
         decode_body: bool = True,
+        send_on_connect: bool = True,
     ):
         """Initialize the client protocol.
 
@@ -53,10 +54,15 @@ class GeminiClientProtocol(asyncio.Protocol):
                 using the declared charset. If False, every body is returned
                 as the raw bytes the server sent (used by the reverse proxy,
                 which must relay bodies unchanged).
+            send_on_connect: If True (default), the request is written as soon
+                as the connection is made. If False, nothing is sent until
+                send_request() is called - the session uses this to verify the
+                peer's certificate (TOFU) before any request byte leaves.
         """
         self.url = url
         self.response_future = response_future
         self.decode_body = decode_body
+        self.send_on_connect = send_on_connect
         self.transport: asyncio.Transport | None = None
         self.buffer = b""
         self.header_received = False
@@ -73,7 +79,11 @@ class GeminiClientProtocol(asyncio.Protocol):
         """
         self.transport = transport  # type: ignore[assignment]
 
-        # Send Gemini request (just the URL + CRLF)
+        if self.send_on_connect:
+            self.send_request()
+
+    def send_request(self) -> None:
+        """Send the Gemini request (just the URL + CRLF)."""
         request = f"{self.url}\r\n"
         if self.transport:
             self.transport.write(request.encode("utf-8"))
@@ -306,6 +316,7 @@ class TitanClientProtocol(asyncio.Protocol):
         titan_url: str,
         content: bytes,
         response_future: asyncio.Future,
+        send_on_connect: bool = True,
     ):
         """Initialize the Titan client protocol.
 
@@ -313,10 +324,14 @@ class TitanClientProtocol(asyncio.Protocol):
             titan_url: The Titan URL with parameters (;size=N;mime=TYPE;token=TOKEN).
             content: The content bytes to upload.
             response_future: Future to set with the final GeminiResponse.
+            send_on_connect: If True (default), the request is written as soon
+                as the connection is made. If False, nothing is sent until
+                send_request() is called (see GeminiClientProtocol).
         """
         self.titan_url = titan_url
         self.content = content
         self.response_future = response_future
+        self.send_on_connect = send_on_connect
         self.transport: asyncio.Transport | None = None
         self.buffer = b""
         self.header_received = False
@@ -333,8 +348,12 @@ class TitanClientProtocol(asyncio.Protocol):
         """
         self.transport = transport  # type: ignore[assignment]
 
+        if self.send_on_connect:
+            self.send_request()
+
+    def send_request(self) -> None:
+        """Send the Titan request: URL + CRLF + content."""
         if self.transport:
-            # Send Titan request: URL + CRLF + content
             request_line = f"{self.titan_url}\r\n".encode()
             self.transport.write(request_line)
             self.transport.write(self.content)
